@@ -135,7 +135,9 @@ namespace igris
 
         void load_history_line()
         {
-            _lastsize = _line.current_size();
+            // distance from the start of the line to the cursor: what the
+            // terminal has to move left by before it redraws the line
+            _lastsize = _line.current_size() - _line.rightsize();
 
             if (_curhist == 0)
             {
